@@ -42,6 +42,11 @@ class Prop(common.PropertyCheck):
                    'cont': rng.choice(['array_int', 'array_float', 'array_narrow', 'sample', 'sample', 'sample_rfi', 'sample_mef', 'sample_reordered']),
                    'chform': rng.choice(['none', 'pos', 'pos0', 'name', 'name_alias', 'list', 'list1', 'perm', 'perm', 'zigzag', 'repeat']), 'seed': rng.randrange(1 << 30)}
 
+        # one list of channel names used on a sample of another column layout first (the caller's list belongs to the caller)
+        for i in range(self.budget(24, 300)):
+            yield {'N': rng.choice([3, 7, 40]), 'D': rng.randrange(3, 7), 'data': rng.choice(['spread', 'modal', 'ties']),
+                   'cont': ['sample', 'sample_rfi', 'sample_reordered'][i % 3], 'chform': ['perm', 'list', 'zigzag', 'repeat'][i % 4], 'seed': rng.randrange(1 << 30), 'reuse': True}
+
     def run_big(self, case):
         """event counts around multiples of 2**16 (block-wise implementations): float reference with exact summation"""
         r = np.random.RandomState(case['seed'] % (1 << 31))
@@ -164,6 +169,13 @@ class Prop(common.PropertyCheck):
         scalar = chf in ('pos', 'pos0', 'name', 'name_alias')
         out = {'cols': [[bits(v) for v in plain[:, c]] for c in cols], 'res': {}, 'plain': {}, 'shape_ok': {}, 'scalar': scalar,
                'single_precision': bool(plain.dtype == np.float32)}
+        if case.get('reuse') and isinstance(ch, list) and names:
+            try:
+                other = d[:, ::-1] if case['seed'] % 2 else d[:, list(range(1, D)) + [0]]
+                STATS and getattr(FlowCal.stats, STATS[case['seed'] % len(STATS)])(other, ch)
+                other[:, ch]
+            except Exception:
+                pass
         for st in STATS:
             f = getattr(FlowCal.stats, st)
             try:
